@@ -14,3 +14,6 @@ ASSUMPTIONS = [
     "instants outside 1970..2514 and references farther than 2^31 s are outside the claim",
 ]
 EXPLANATION = "Time64FromTime/TimeFromTime64 executed from go/ssa; assertions in component form (seconds equal, nanoseconds differ by 0..1)"
+CLAIMED = True
+LEVEL_TEXT = "Bounded model checking of the real conversion functions: for every instant 1970..2514 (all 10^9 sub-second values) and every reference within 2^31 s the round trip, order and field obligations are decided by SMT (unsat = holds for all values in range). The range is the only bound; there are no loops."
+LEVEL_NOTE = "time.Time is modelled by its documented contract as a (sec,nsec) pair (Unix, Nanosecond, time.Unix normalisation) instead of executing the std library; solvers trusted (portfolio, cross-checked); instants beyond 2514 outside the claim."
